@@ -473,14 +473,14 @@ def build_file(W: dict) -> bytes:
 ENT_VALUE_CHARS = 'abcdefghijklmnopqrstuvwxyzABCXYZ0123456789 _-./*$#@!%&()[]{}<>=+;:\'~^|'
 
 
-def ent_value(rng, hostile: float = 0.3, allow_four_commas: bool = False) -> str:
+def ent_value(rng, hostile: float = 0.3, allow_four_commas: bool = False, extra: str = '') -> str:
     """A keyvalue the entity lump can carry: no ESC, never the documented four-comma output shape."""
     n = rng.choice((0, 1, 3, 8, 20, 40))
     chars = []
     for _ in range(n):
         r = rng.random()
         if r < hostile * 0.25:
-            chars.append(rng.choice('"\\\t\n'))
+            chars.append(rng.choice('"\\\t\n' + extra))
         elif r < hostile * 0.4:
             chars.append(',')
         elif r < hostile * 0.5:
@@ -524,14 +524,14 @@ def gen_output(rng, comma: bool) -> dict:
     }
 
 
-def gen_ents(rng, n_models: int, sep: str, scale: int) -> List[dict]:
+def gen_ents(rng, n_models: int, sep: str, scale: int, xchars: str = '', four: bool = True) -> List[dict]:
     """Entity 0 is worldspawn; every brush model 1..n-1 is referenced by at least one entity as "*N"."""
     comma = sep == 'comma'
     ents = []
     used = {'classname'}
     world_keys = [('classname', 'worldspawn')]
     for _ in range(rng.randint(0, 3)):
-        world_keys.append((ent_key(rng, used), ent_value(rng, allow_four_commas=sep != 'esc')))
+        world_keys.append((ent_key(rng, used), ent_value(rng, allow_four_commas=four and sep != 'esc', extra=xchars)))
     if rng.random() < 0.5:
         world_keys.append(('mapversion', str(rng.randint(1, 999))))
     ents.append({'keys': world_keys, 'outs': []})
@@ -549,7 +549,7 @@ def gen_ents(rng, n_models: int, sep: str, scale: int) -> List[dict]:
             keys.append(('classname', rng.choice(('func_brush', 'info_target', 'trigger_multiple', 'prop_dynamic', 'light'))))
         for _ in range(rng.randint(0, 4)):
             k = ent_key(rng, used)
-            v = ent_value(rng, allow_four_commas=sep != 'esc')
+            v = ent_value(rng, allow_four_commas=four and sep != 'esc', extra=xchars)
             if k.casefold() == 'model' and v.startswith('*'):
                 v = 'models/' + v[1:]
             keys.append((k, v))
@@ -742,7 +742,7 @@ def gen_world(rng, layout: str, **opt: Any) -> dict:
             o.update(fade_min=-1.0, fade_max=0.0, min_cpu=0, max_cpu=0, min_gpu=0, max_gpu=0)
     sep = opt.get('sep', rng.choice(('comma', 'esc', 'esc', 'none')))
     W['sep'] = sep
-    W['ents'] = gen_ents(rng, n_models, sep, scale)
+    W['ents'] = gen_ents(rng, n_models, sep, scale, opt.get('ent_extra', ''), opt.get('four_commas', True))
     W['pak'] = [(rname(rng, 1, 12, 'abcdef/_') + rng.choice(('.vmt', '.txt', '.vtf')), rbytes(rng, rng.choice((0, 5, 100, 700))))
                 for _ in range(cnt(0, 2))]
     seen_names = set()
@@ -774,7 +774,7 @@ def gen_world(rng, layout: str, **opt: Any) -> dict:
     W['compressed'] = set()
     if opt.get('lzma', rng.random() < 0.4):
         candidates = [i for i in range(LUMP_COUNT) if i not in (L_GAME_LUMP, L_PAKFILE)]
-        W['compressed'] = {i for i in candidates if rng.random() < 0.5}
+        W['compressed'] = {i for i in candidates if rng.random() < opt.get('lzma_share', 0.1)}
     order = list(range(LUMP_COUNT))
     if rng.random() < 0.5:
         rng.shuffle(order)
@@ -841,7 +841,7 @@ def gen_vis(rng, mode: str, clusters: Optional[int] = None) -> Optional[dict]:
 def gen_sprp(rng, ver: str, n_leafs: int, n_props: int, wide: bool) -> dict:
     models = []
     while len(models) < (rng.randint(1, 3) if n_props else rng.randint(0, 1)):
-        m = 'models/' + rname(rng, 1, rng.choice((10, 40, 121))) + '.mdl'
+        m = 'models/' + rname(rng, 1, rng.choice((10, 40, 116))) + '.mdl'
         if m not in models:
             models.append(m)
     leaves: List[int] = []
@@ -858,7 +858,7 @@ def gen_sprp(rng, ver: str, n_leafs: int, n_props: int, wide: bool) -> dict:
              'flags_int': rng.choice((0, 1, 0x104, rng.getrandbits(24))), 'lm_x': rng.choice((32, 4, 1024)),
              'lm_y': rng.choice((32, 8, 65535)), 'tint': [rng.randrange(256) for _ in range(3)], 'renderfx': rng.randrange(256),
              'xbox': rng.random() < 0.5, 'flags_ex': rng.choice((0, 1, 4, rng.getrandbits(24))),
-             'scale3': [abs(rfloat(rng)) + 0.25 for _ in range(3)]}
+             'scale3': [f32(abs(rfloat(rng)) + 0.25) for _ in range(3)]}
         leaves += mine_
         props.append(p)
     return {'version': ver, 'models': models, 'leaves': leaves, 'props': props, 'num': num}
@@ -881,9 +881,9 @@ def gen_dprp(rng, n_props: int, n_leafs: int) -> dict:
         if typ == 0:
             p.update(index=rng.randrange(len(models)), scale=1.0, shape_angle=0, shape_size=1)
         elif typ == 1:
-            p.update(index=rng.randrange(len(sprites)), scale=abs(rfloat(rng)) + 0.5, shape_angle=0, shape_size=1)
+            p.update(index=rng.randrange(len(sprites)), scale=f32(abs(rfloat(rng)) + 0.5), shape_angle=0, shape_size=1)
         else:
-            p.update(index=rng.randrange(len(sprites)), scale=abs(rfloat(rng)) + 0.5, shape_angle=rng.randrange(256),
+            p.update(index=rng.randrange(len(sprites)), scale=f32(abs(rfloat(rng)) + 0.5), shape_angle=rng.randrange(256),
                      shape_size=rng.randrange(256))
         props.append(p)
     return {'models': models, 'sprites': [list(s) for s in sprites], 'props': props}
@@ -1211,3 +1211,13 @@ def first_diff(a: Any, b: Any, path: str = '') -> Optional[dict]:
     if isinstance(a, bool) != isinstance(b, bool) or a != b:
         return {'path': path, 'want': a, 'got': b}
     return None
+
+
+def view_diffs(a: dict, b: dict) -> List[dict]:
+    """First difference inside every top-level entry (view) of two canonical dumps, so one defect cannot mask another."""
+    out = []
+    for k in a:
+        d = first_diff(a[k], b.get(k, '<missing>'), f'/{k}')
+        if d:
+            out.append(d)
+    return out
